@@ -25,11 +25,11 @@ fn c16_priority_source() {
 #[kani::proof]
 #[kani::unwind(12)]
 fn c16_node_priorities() {
-    let mut p = [0u32; 8];
+    let mut p = [0u64; 8]; // width-agnostic: the priority type is the library's business, its 32 generator bits are not
     let mut i = 0;
     while i < 8 {
         let n = rlib_treap::TreapNode::new(0u8);
-        p[i] = n.priority;
+        p[i] = n.priority as u64;
         i += 1;
     }
     let (mut asc, mut desc, mut hi, mut lo) = (0, 0, 0, 0);
@@ -42,9 +42,9 @@ fn c16_node_priorities() {
         }
         if i > 0 && p[i - 1] < p[i] { asc += 1; }
         if i > 0 && p[i - 1] > p[i] { desc += 1; }
-        if p[i] >> 31 == 1 { hi += 1; } else { lo += 1; }
+        if (p[i] >> 31) & 1 == 1 { hi += 1; } else { lo += 1; }
         i += 1;
     }
     assert!(asc >= 1 && desc >= 1, "priorities are not monotone");
-    assert!(hi >= 1 && lo >= 1, "priorities use the top bit");
+    assert!(hi >= 1 && lo >= 1, "priorities use bit 31 (at least 32 bits of the generator reach the priority)");
 }
